@@ -190,6 +190,9 @@ func (rl *ruleLoader) ruleValueLiteral(ruleValue lexeme.LexEvent) {
 
 func (rl *ruleLoader) loadEmbeddedValue(lex lexeme.LexEvent) {
 	if lex.Type() == lexeme.NewLine {
+		if l, ok := rl.embeddedValueLoader.(lineAwareLoader); ok {
+			l.NewLine()
+		}
 		return
 	}
 	if !rl.embeddedValueLoader.Load(lex) {
